@@ -2453,6 +2453,52 @@ void vector_dim_mixed(char const *an, char const *bn)
   }
 }
 
+// ---- init with a function that has STATE (loading from an iterator, a counter): "init ... agree with the same operations on
+// plain arrays" - the plain loop calls the function for index 0, 1, 2, ... (row-major for a matrix)
+void init_call_order()
+{
+  std::string const e = "vector,dim,matrix::init/call-order";
+  if (!vf::entry_enabled(e) || !vf::mine(vf::hash_str(e)))
+    return;
+  vf::set_entry(e);
+  if (!vf::begin_case("init from a running counter / an input iterator for vector<int,4>, dim<int,3>, matrix<int,2,3>, matrix<int,3,3>"))
+    return;
+  vf::note_distinct(vf::hash_str(e));
+  std::array<int, 9> const src{10, 20, 30, 40, 50, 60, 70, 80, 90};
+  {
+    auto it = src.begin();
+    auto const v = fm::vector::init<fm::vector::static_<int, 4>>([&it](auto) { return *it++; });
+    for (size_type k = 0; k < 4; ++k)
+      if (v.get_unsafe(k) != src[k])
+        vf::violation("vector::init/call-order", "mismatch", "component " + std::to_string(k) + " is " + std::to_string(v.get_unsafe(k)) + ", the plain loop gives " + std::to_string(src[k]));
+  }
+  {
+    auto it = src.begin();
+    auto const d = fm::dim::init<fm::dim::static_<int, 3>>([&it](auto) { return *it++; });
+    for (size_type k = 0; k < 3; ++k)
+      if (d.get_unsafe(k) != src[k])
+        vf::violation("dim::init/call-order", "mismatch", "component " + std::to_string(k));
+  }
+  {
+    auto it = src.begin();
+    auto const m = fm::matrix::init<fm::matrix::static_<int, 2, 3>>([&it](auto) { return *it++; });
+    for (size_type r = 0; r < 2; ++r)
+      for (size_type c = 0; c < 3; ++c)
+        if (m.get_unsafe(r).get_unsafe(c) != src[r * 3 + c])
+          vf::violation("matrix::init/call-order", "mismatch", "element (" + std::to_string(r) + "," + std::to_string(c) + ") of a 2x3 matrix");
+  }
+  {
+    int counter = 0;
+    auto const m = fm::matrix::init<fm::matrix::static_<int, 3, 3>>([&counter](auto) { return counter++; });
+    for (size_type r = 0; r < 3; ++r)
+      for (size_type c = 0; c < 3; ++c)
+        if (m.get_unsafe(r).get_unsafe(c) != static_cast<int>(r * 3 + c))
+          vf::violation("matrix::init/call-order", "mismatch", "element (" + std::to_string(r) + "," + std::to_string(c) + ") of a 3x3 matrix");
+  }
+  VF_COUNT("init/call-order-cases");
+  vf::add_evals(4);
+}
+
 // ---- rectangular shapes: identity (ones exactly where row == column), null, fill, init, transpose, products between
 // compatible shapes, matrix * vector, comparison - against plain arrays.  Tall, wide, one column, one row.
 template <std::size_t R, std::size_t C>
@@ -2563,6 +2609,7 @@ void vf_slice_10()
   rect_shapes<long>();
   noncommutative_scalars();
   coarse_equality_scalars();
+  init_call_order();
   vector_dim_mixed<long, unsigned>("long", "unsigned");
   vector_dim_mixed<std::size_t, unsigned>("size_t", "unsigned");
   vector_dim_mixed<int, short>("int", "short");
